@@ -120,7 +120,10 @@ def dotted(node):
 class _Canon(ast.NodeTransformer):
     """Load-time canonical forms, so that rules see one spelling of equivalent statements:
        t = t <op> v   ->   t <op>= v      (t a name / attribute / subscript chain without calls)
-       t = v + t      ->   t += v         (v a numeric constant)"""
+       t = v + t      ->   t += v         (v a numeric constant)
+       not (a == b)   ->   a != b         (also in / is)
+       x = a if c else b  ->  if c: x = a else: x = b      (and `return a if c else b`)
+       if c: ...jump else: rest  ->  if c: ...jump ; rest"""
 
     @staticmethod
     def _pure(e):
@@ -141,6 +144,59 @@ class _Canon(ast.NodeTransformer):
                 return ast.copy_location(ast.AugAssign(target=t, op=v.op, value=v.right), node)
             if ast.dump(v.right) == ts and isinstance(v.op, ast.Add) and isinstance(v.left, ast.Constant) and isinstance(v.left.value, (int, float)):
                 return ast.copy_location(ast.AugAssign(target=t, op=v.op, value=v.left), node)
+        return node
+
+
+    _FLIP = {ast.Eq: ast.NotEq, ast.NotEq: ast.Eq, ast.In: ast.NotIn, ast.NotIn: ast.In, ast.Is: ast.IsNot, ast.IsNot: ast.Is}
+
+    def visit_UnaryOp(self, node):
+        # not (a == b) -> a != b ; not (a in b) -> a not in b ; not (a is b) -> a is not b   (total negations only; < and > are left alone)
+        self.generic_visit(node)
+        if isinstance(node.op, ast.Not) and isinstance(node.operand, ast.Compare) and len(node.operand.ops) == 1 and type(node.operand.ops[0]) in self._FLIP:
+            c = node.operand
+            return ast.copy_location(ast.Compare(left=c.left, ops=[self._FLIP[type(c.ops[0])]()], comparators=c.comparators), node)
+        return node
+
+    @staticmethod
+    def _store(t):
+        import copy
+
+        t = copy.deepcopy(t)
+        return t
+
+    def _stmts(self, body):
+        """statement-list forms:
+           x = a if c else b / return a if c else b   ->  if c: x = a  else: x = b
+           if c: ...jump  else: rest                    ->  if c: ...jump ; rest        (plain else, not an elif chain)"""
+        out = []
+        for st in body:
+            if isinstance(st, ast.Assign) and isinstance(st.value, ast.IfExp) and len(st.targets) == 1 and isinstance(st.targets[0], (ast.Name, ast.Attribute)):
+                e = st.value
+                a = ast.copy_location(ast.Assign(targets=[st.targets[0]], value=e.body), st)
+                b = ast.copy_location(ast.Assign(targets=[self._store(st.targets[0])], value=e.orelse), st)
+                out.extend(self._stmts([ast.copy_location(ast.If(test=e.test, body=self._stmts([a]), orelse=self._stmts([b])), st)]))
+            elif isinstance(st, ast.Return) and isinstance(st.value, ast.IfExp):
+                e = st.value
+                a = ast.copy_location(ast.Return(value=e.body), st)
+                b = ast.copy_location(ast.Return(value=e.orelse), st)
+                out.extend(self._stmts([ast.copy_location(ast.If(test=e.test, body=self._stmts([a]), orelse=self._stmts([b])), st)]))
+            elif (isinstance(st, ast.If) and st.orelse and isinstance(st.body[-1], (ast.Return, ast.Raise, ast.Continue, ast.Break))
+                    and not (len(st.orelse) == 1 and isinstance(st.orelse[0], ast.If))):
+                out.append(ast.copy_location(ast.If(test=st.test, body=st.body, orelse=[]), st))
+                out.extend(st.orelse)
+            else:
+                out.append(st)
+        return out
+
+    def generic_visit(self, node):
+        super().generic_visit(node)
+        for f in ("body", "orelse", "finalbody"):
+            b = getattr(node, f, None)
+            if isinstance(b, list) and b and isinstance(b[0], ast.stmt):
+                setattr(node, f, self._stmts(b))
+        if isinstance(node, ast.Try):
+            for h in node.handlers:
+                pass
         return node
 
 
